@@ -63,6 +63,11 @@ def scenarios(tier, seed=0):
         spec = A.to_spec(A._b(crop=ck, irr="smt", iwc="FC", word="normal", win="w3", soil="SandyLoam"))
         spec["co2"] = {"constant_conc": flag, "current_concentration": conc}
         yield {"kind": "spec", "spec": spec, "label": ["constant-co2-switch-spelling", ck, str(flag), conc]}
+    # thermal crops at full length under a constant 10 / 16 degree days a day: cumulative sums land EXACTLY on the thermal thresholds
+    # (HIstart + YldForm, Senescence, Maturity ...), the calendar of season k is derived at another code site than that of season 0
+    for name, word in (("MaizeGDD", "steady10"), ("WheatGDD", "steady16"), ("SorghumGDD", "steady10"), ("SunflowerGDD", "steady16")) if not q else (("MaizeGDD", "steady10"), ("WheatGDD", "steady16")):
+        spec = A.catalogue_spec(name, word=word, irr="smt", iwc="FC", end="2003/04/20")
+        yield {"kind": "spec", "spec": spec, "label": ["exact-thermal-thresholds", name, word]}
     # short thermal-time crops under sustained heat (pollination fails on the record's temperatures; anything that alters the
     # temperatures a later season sees shows against the run started at that season)
     for word, irr, meth in itertools.product(["scorch", "hot", "coolnights"], ["smt", "none"] if not q else ["smt"], [1, 2, 3]):
